@@ -20,6 +20,7 @@
 #include "llvm/Support/SourceMgr.h"
 #include "llvm/IR/Instructions.h"
 #include "llvm/IR/IntrinsicInst.h"
+#include "llvm/IR/InlineAsm.h"
 #include "llvm/IR/Operator.h"
 #include "llvm/IR/DebugInfo.h"
 #include "llvm/IR/DebugInfoMetadata.h"
@@ -459,7 +460,7 @@ int main(int argc, char **argv) {
         auto vn = vname.find(&I); if (vn != vname.end()) O << ",\"dv\":" << jstr(vn->second.first) << ",\"dt\":" << jstr(vn->second.second);
         if (auto *CB = dyn_cast<CallBase>(&I)) {
           Value *Callee = CB->getCalledOperand()->stripPointerCasts();
-          if (auto *Fn = dyn_cast<Function>(Callee)) O << ",\"fn\":" << jstr(Fn->getName()); else O << ",\"fn\":null,\"callee\":" << enc(CB->getCalledOperand());
+          if (auto *Fn = dyn_cast<Function>(Callee)) O << ",\"fn\":" << jstr(Fn->getName()); else { O << ",\"fn\":null,\"callee\":" << enc(CB->getCalledOperand()); if (auto *IA = dyn_cast<InlineAsm>(Callee)) O << ",\"asm\":" << jstr(IA->getAsmString()); }
           O << ",\"a\":["; for (unsigned a = 0; a < CB->arg_size(); a++) { if (a) O << ","; O << enc(CB->getArgOperand(a)); } O << "]";
           O << ",\"used\":" << (CB->use_empty() ? "false" : "true");
         } else if (auto *G = dyn_cast<GetElementPtrInst>(&I)) {
